@@ -16,12 +16,12 @@ from .. import names
 RULE = ("each clean (schema, document) is compiled under a baseline option set and 3 variants drawn from normalization {none, rust} x "
         "extra response / variables derives x module visibility {pub, pub(crate), inherited} x custom-scalars module {super, "
         "dedicated module} x extern-enum subsets (consumer enum with the reference wire behaviour) x serde path {::serde, serde, "
-        "graphql_client::_private::serde, two re-exports inside the consumer crate} x delivery {library, derive macro (one member of most groups)}; every vector (C01 payloads, C03 corruptions, valid variable assignments) must yield "
+        "graphql_client::_private::serde, two re-exports inside the consumer crate} x delivery {library, derive macro (one member of most groups)}; one member of most groups has no variables derives at all; every document has an operation without variables whose body is built from a `Variables {}` literal; every vector (C01 payloads, C03 corruptions, valid variable assignments) must yield "
         "the same accept/reject decision, the same re-serialised payload and the same serialised body under all of them. "
         "Non-trivial = group whose variants differ in normalization, extern enums or scalar module; distinct by (schema, document, variant options)")
 
 FLOOR = {"groups": 30, "variant-comparisons": 90, "vectors-compared": 5000, "dim:normalization": 10, "dim:extern_enums": 5, "dim:custom_scalars_module": 5,
-         "dim:serde_path": 5, "dim:visibility": 10, "dim:derives": 10, "dim:derive-delivery": 8}
+         "dim:serde_path": 5, "dim:visibility": 10, "dim:derives": 10, "dim:derive-delivery": 8, "dim:no-variables-derives": 20}
 
 
 def variant_options(rng, schema, cid, force_dim=None):
@@ -72,6 +72,8 @@ def gen_groups(run, n):
                     if extra not in schema.types[e0]["values"] and names.camel(extra) not in {names.camel(v) for v in schema.types[e0]["values"]}:
                         schema.types[e0]["values"].append(extra)
         doc, feats = gen_document(schema, rng, n_ops=rng.choice([1, 1, 2]))
+        # an operation that declares no variables: its request body must not depend on the options either
+        doc["operations"].append({"kind": "query", "name": "NoVars%d" % gi, "vars": [], "sel": [["typename"]]})
         other = rng.random() < 0.4      # not wire-neutral: held constant inside a group
         skip = rng.random() < 0.3 or enum_free
         base_opts = {"other_variant": other, "skip_none": skip}
@@ -91,6 +93,9 @@ def gen_groups(run, n):
                 except RecursionError:
                     continue
                 vecs.append({"id": "%s.a%d" % (op["name"], ai), "kind": "vars", "target": op["name"], "input": asg, "expect": {}})
+        for op in doc["operations"]:
+            if not op.get("vars"):
+                vecs.append({"id": "%s.body0" % op["name"], "kind": "vars0", "target": op["name"], "input": {}, "expect": {}})
         # which schema enum values are proper variants (a symmetric renaming bug hides behind Other(s) in a round trip)
         for en in schema.of_kind("enum"):
             for vi, val in enumerate(schema.types[en]["values"]):
@@ -110,6 +115,11 @@ def gen_groups(run, n):
             if vi == 2 and not enum_free:
                 opts.pop("serde_path", None)      # this member goes through the derive macro, which fixes the serde path
                 dims = [d for d in dims if d != "serde_path"]
+            if vi == 3 and not enum_free:
+                # no extra variables derives at all (the vectors that need Deserialize for Variables are then not observable
+                # for this member; the bodies of variable-less operations still are)
+                opts["variables_derives"] = None
+                dims = dims + ["no-variables-derives"]
             if enum_free:
                 opts["response_derives"] = ["serde::Serialize, Debug, PartialEq", "Debug,::serde::Serialize,PartialEq", "Debug, PartialEq, serde::Serialize , Clone"][vi - 1]
                 opts["skip_none"] = base_opts["skip_none"]
@@ -187,7 +197,7 @@ def main(run):
             for vec in base["vectors"]:
                 run.count("vectors-compared")
                 a, b = strip(b_obs.get(vec["id"])), strip(o.get(vec["id"]))
-                if vec["kind"] == "enum" and ((a or {}).get("absent") or (b or {}).get("absent")):
+                if vec["kind"] in ("enum", "vars") and ((a or {}).get("absent") or (b or {}).get("absent")):
                     continue
                 if a != b:
                     # identical means identical: a member written as null under one option set and left out under
